@@ -31,8 +31,7 @@ RULE = ("histories of lifecycle calls (setup / iterate / iterate_n(k) / run(0|1 
         "below one molecule; non-trivial when the history has >= 3 calls; distinct by (scripts, calls)")
 ASSUMPTIONS = [
     "a call that prints nothing for 6 s (quick) on these tiny systems is a hang (reference runs take milliseconds)",
-    "lifecycle-respecting: between finalize() and the next setup() only finalize / is_complete / setup are called (the API documentation: "
-    "'should be called after setup and before finalize'); calls on a released engine are exercised separately and reported as finding",
+    "calls on a released engine (between finalize() and the next setup()) are part of the histories: they must return at once",
     "run(ms): the number of iterations it performed is read off the native clock after the call (wall-clock dependent)",
 ]
 TRUSTED = ["life_child.py (sandboxed driver of the real engine)", "reference state machine in this file (written from the property)"]
@@ -121,7 +120,7 @@ DEAD_CALLS = ["finalize", "is_complete", "setup", "setup"]
 
 
 def rand_call(rng, obj, live, pool_opt, scripts, allow_zero_n=False):
-    name = rng.choice(LIVE_CALLS if live else DEAD_CALLS)
+    name = rng.choice(LIVE_CALLS if (live or rng.random() < 0.25) else DEAD_CALLS)
     if name == "setup":
         p = rng.choice(pool_opt)
         if p["idx"] not in scripts:
@@ -239,7 +238,17 @@ def reference_machine(job, pool_by_idx, results):
                 s["live"] = False
             continue
         if s is None or not s["live"]:
-            continue       # use after release: only "returns at all" is observed (by the caller)
+            # released engine: every call returns at once — drive calls report "finished", nothing is sampled
+            if k in ("iterate", "run") or (k == "iterate_n" and c["n"] >= 1):
+                if ret is not False:
+                    bad.append((i, KEY_UAF, "%s() on a released engine returned %r" % (k, ret), ret, False))
+                if s is not None:
+                    s["unfinished"] = False
+            elif k == "get_progress" and ret != 0.0:
+                bad.append((i, KEY_UAF, "get_progress() on a released engine returned %r" % ret, ret, 0.0))
+            elif k == "get_output" and (not isinstance(ret, dict) or ret["nsamples"] != 0):
+                bad.append((i, KEY_UAF, "get_output() on a released engine is not an empty trajectory", ret if not isinstance(ret, dict) else ret["nsamples"], 0))
+            continue
         ref = s["ref"]
         N = ref["N"]
         T = ref["T"]
